@@ -270,11 +270,21 @@ def d44():
     return f"f.array = g (nvdim 3 into nvdim 2) accepted: shape {f.array.shape}"
 
 
+def d101():
+    r = df.Region(p1=(1e15,), p2=(1e15 + 1,))
+    try:
+        m = df.Mesh(region=r, cell=(1000,))
+    except ValueError:
+        return None
+    return f"Mesh(cell=1000) on an edge of length 1 at offset 1e15 accepted: n={m.n.tolist()}, cell={m.cell.tolist()}"
+
+
 ALL = {
     "D1": ("C13", d1), "D2": ("C13", d2), "D3": ("C12", d3), "D4": ("C12", d4),
     "D5": ("C08", d5), "D6": ("C08", d6), "D7": ("C08", d7), "D8": ("C03", d8),
     "D9": ("C03", d9), "D11": ("C02", d11), "D12": ("C10", d12), "D13": ("C10", d13),
     "D14": ("C09", d14), "D15": ("C09", d15), "D16": ("C11", d16), "D20": ("C19", d20), "D21": ("C13", d21), "D22": ("C08", d22), "D23": ("C03", d23), "D31": ("C10", d31), "D41": ("C02", d41), "D43": ("C02", d43), "D44": ("C02", d44),
+    "D101": ("C01", d101),
 }
 
 
